@@ -1,4 +1,209 @@
 import SdbModel.Model.Reconciler
-/-! # C14 — theorems under construction (see DESIGN.md section 4) -/
+import SdbModel.Props.C16
+
+/-!
+# C14 — Reconciler converges: target equals table once failures stop
+
+> For any history of inserts, updates and deletes on the reconciled table and
+> any pattern of failing Update/Delete operations, once operations stop failing
+> and the table stops changing the reconciler reaches, within a bounded number
+> of retry periods, a state where the target equals the table (…).  No object is
+> forgotten, whatever the round size, rate limits, batch or single operations,
+> or retry timing.
+
+PARTIAL.  The whole-history convergence statement is decided by the
+correspondence run and the convergence oracle (and is violated by known finding
+K4).  Proved here over `Model.Reconciler`, for all states and arguments, are the
+step-level facts convergence is built from: the change stream hands the round
+every object changed since the iterator's position and every retained deletion
+(nothing is skipped), a successful operation calls the target with the object's
+data and clears its retry state, a failed one leaves the object queued for a
+retry that is due within the maximal backoff (nothing is forgotten).
+-/
 namespace Sdb
+open Rec
+
+/-! ## the change stream is complete -/
+
+private theorem mem_insertCh (c x : Change) (l : List Change) : x ∈ insertCh c l ↔ x = c ∨ x ∈ l := by
+  induction l with
+  | nil => simp [insertCh]
+  | cons d ds ih =>
+    unfold insertCh
+    split
+    · simp
+    · simp only [List.mem_cons, ih]
+      constructor
+      · rintro (h | h | h)
+        · exact Or.inr (Or.inl h)
+        · exact Or.inl h
+        · exact Or.inr (Or.inr h)
+      · rintro (h | h | h)
+        · exact Or.inr (Or.inl h)
+        · exact Or.inl h
+        · exact Or.inr (Or.inr h)
+
+private theorem mem_foldr_insertCh (l : List Change) (x : Change) : x ∈ l.foldr insertCh [] ↔ x ∈ l := by
+  induction l with
+  | nil => simp
+  | cons c cs ih => simp [List.foldr_cons, mem_insertCh, ih]
+
+private theorem mem_mergeCh (a b : List Change) (x : Change) : x ∈ mergeCh a b ↔ x ∈ a ∨ x ∈ b := by
+  fun_induction mergeCh a b with
+  | case1 r => simp
+  | case2 l h => simp
+  | case3 l ls r rs hle ih => simp only [List.mem_cons, ih]; grind
+  | case4 l ls r rs hle ih => simp only [List.mem_cons, ih]; grind
+
+/-- whenever the loop has something to look at, `Next` hands the round EVERY live
+    object written since the iterator's position … -/
+theorem C14_changes_contain_every_newer_object (r : R) (o : RObj)
+    (hrun : ¬ (r.pending.isNone ∧ r.refreshedAt = r.tableRev))
+    (ho : o ∈ r.objs) (hrev : o.rev > r.itRev) :
+    ({ obj := o, rev := o.rev, deleted := false } : Change) ∈ r.nextChanges.2 := by
+  unfold R.nextChanges
+  simp only [hrun, if_false]
+  rw [mem_mergeCh]
+  right
+  rw [mem_foldr_insertCh, List.mem_map]
+  exact ⟨o, by simp [List.mem_filter, ho, hrev], rfl⟩
+
+/-- … and every retained deletion newer than its delete position -/
+theorem C14_changes_contain_every_newer_deletion (r : R) (o : RObj) (dr : Nat)
+    (hrun : ¬ (r.pending.isNone ∧ r.refreshedAt = r.tableRev))
+    (ho : (o, dr) ∈ r.dels) (hrev : dr > r.itDelRev) :
+    ({ obj := o, rev := dr, deleted := true } : Change) ∈ r.nextChanges.2 := by
+  unfold R.nextChanges
+  simp only [hrun, if_false]
+  rw [mem_mergeCh]
+  left
+  rw [mem_foldr_insertCh, List.mem_map]
+  exact ⟨(o, dr), by simp [List.mem_filter, ho, hrev], rfl⟩
+
+/-- the stream contains nothing else: only current objects and retained deletions -/
+theorem C14_changes_only_current (r : R) (c : Change) (hc : c ∈ r.nextChanges.2) :
+    (c.deleted = false ∧ c.obj ∈ r.objs ∧ c.rev = c.obj.rev) ∨ (c.deleted = true ∧ (c.obj, c.rev) ∈ r.dels) := by
+  unfold R.nextChanges at hc
+  split at hc
+  · simp at hc
+  · simp only at hc
+    rw [mem_mergeCh, mem_foldr_insertCh, mem_foldr_insertCh] at hc
+    rcases hc with hc | hc
+    · right
+      simp only [List.mem_map, List.mem_filter] at hc
+      obtain ⟨⟨o, dr⟩, ⟨hm, _⟩, rfl⟩ := hc
+      exact ⟨rfl, hm⟩
+    · left
+      simp only [List.mem_map, List.mem_filter] at hc
+      obtain ⟨o, ⟨hm, _⟩, rfl⟩ := hc
+      exact ⟨rfl, hm, rfl⟩
+
+/-! ## one operation -/
+
+private theorem applyInject_log (r : R) (a : Inject) : (r.applyInject a).log = r.log := by
+  cases a with
+  | put id data => rfl
+  | del id => simp only [R.applyInject, R.delObj]; split <;> rfl
+  | touch id => simp only [R.applyInject, R.touch]; split <;> rfl
+
+private theorem foldl_inject_log (l : List (Nat × Inject)) (r : R) :
+    (l.foldl (fun (r : R) (a : Nat × Inject) => r.applyInject a.2) r).log = r.log := by
+  induction l generalizing r with
+  | nil => rfl
+  | cons a as ih => rw [List.foldl_cons, ih, applyInject_log]
+
+private theorem retryClear_log (r : R) (id : Nat) : (r.retryClear id).log = r.log := by
+  unfold R.retryClear; split <;> rfl
+
+private theorem retryAdd_log (r : R) (o : RObj) (a b : Nat) (d : Bool) : (r.retryAdd o a b d).log = r.log := rfl
+
+/-- every processed change results in exactly one call on the target, an Update
+    with the object's data or a Delete, reported as it went -/
+theorem C14_process_calls_target (r : R) (obj : RObj) (rev : Nat) (del : Bool) :
+    (r.processSingle obj rev del).log =
+      r.log ++ [{ op := if del then "D" else "U", id := obj.id, data := obj.data, ok := !r.isFailing obj.id }] := by
+  unfold R.processSingle
+  cases del
+  · simp only [Bool.false_eq_true, if_false]
+    split
+    · simp only [foldl_inject_log]
+    · rw [retryClear_log]; simp only [foldl_inject_log]
+  · simp only [if_true]
+    split
+    · rw [retryAdd_log]
+    · rw [retryClear_log]
+
+private theorem retryClear_no_item (r : R) (id : Nat) : (r.retryClear id).items.find? (·.id = id) = none := by
+  unfold R.retryClear
+  split
+  · assumption
+  · simp only
+    rw [List.find?_eq_none]
+    intro x hx
+    simp at hx
+    simp [hx.2]
+
+/-- a successful Delete clears the object's retry state -/
+theorem C14_successful_delete_clears_retry (r : R) (obj : RObj) (rev : Nat) (h : r.isFailing obj.id = false) :
+    (r.processSingle obj rev true).items.find? (·.id = obj.id) = none := by
+  unfold R.processSingle
+  simp only [h, if_true, Bool.false_eq_true, if_false]
+  exact retryClear_no_item _ _
+
+/-- a successful Update clears the object's retry state -/
+theorem C14_successful_update_clears_retry (r : R) (obj : RObj) (rev : Nat) (h : r.isFailing obj.id = false) :
+    (r.processSingle obj rev false).items.find? (·.id = obj.id) = none := by
+  unfold R.processSingle
+  simp only [h, Bool.false_eq_true, if_false]
+  exact retryClear_no_item _ _
+
+/-- **a failed Delete is not forgotten**: it is queued for a retry due within
+    the maximal backoff -/
+theorem C14_failed_delete_requeued (r : R) (obj : RObj) (rev : Nat) (h : r.isFailing obj.id = true) :
+    ∃ it, (r.processSingle obj rev true).items.find? (·.id = obj.id) = some it ∧
+      it.inQueue = true ∧ it.delete = true ∧ it.retryAt ≤ r.now + r.cfg.maxB := by
+  unfold R.processSingle
+  simp only [h, if_true]
+  obtain ⟨it, h1, h2, _, _, _, h6⟩ := C16_retryAdd_item
+    { r with log := r.log ++ [({ op := "D", id := obj.id, data := obj.data, ok := !true } : Call)] } obj rev rev true
+  refine ⟨it, h1, h2, ?_, ?_⟩
+  · unfold R.retryAdd at h1
+    simp only at h1
+    rw [List.find?_append] at h1
+    have hn : (List.filter (fun x => decide (x.id ≠ obj.id)) r.items).find? (fun x => decide (x.id = obj.id)) = none := by
+      rw [List.find?_eq_none]; intro x hx; simp at hx; simp [hx.2]
+    rw [hn] at h1
+    simp at h1
+    rw [← h1]
+  · rw [h6]
+    have := C16_backoff_le_max r.cfg.minB r.cfg.maxB it.numRetries
+    simpa using this
+
+private theorem retryAdd_queued (r' : R) (orig : RObj) (a b id : Nat) (hid : orig.id = id) :
+    ∃ it, (r'.retryAdd orig a b false).items.find? (·.id = id) = some it ∧
+      it.inQueue = true ∧ it.retryAt ≤ r'.now + r'.cfg.maxB := by
+  obtain ⟨it, h1, h2, _, _, _, h6⟩ := C16_retryAdd_item r' orig a b false
+  rw [hid] at h1
+  refine ⟨it, h1, h2, ?_⟩
+  rw [h6]
+  have := C16_backoff_le_max r'.cfg.minB r'.cfg.maxB it.numRetries
+  omega
+
+/-- **a failed Update is not forgotten**: when its status is committed for the
+    version that was attempted, the object is queued for a retry due within the
+    maximal backoff -/
+theorem C14_failed_update_requeued (r : R) (obj orig : RObj) (rev sid : Nat) (cur : RObj)
+    (hcur : r.get obj.id = some cur) (hrev : cur.rev = rev) (hid : orig.id = obj.id) :
+    ∃ it, (r.commitOne (obj, orig, rev, sid, true)).items.find? (·.id = obj.id) = some it ∧
+      it.inQueue = true ∧ it.retryAt ≤ r.now + r.cfg.maxB := by
+  unfold R.commitOne
+  simp only [hcur, hrev, if_true]
+  exact retryAdd_queued _ orig _ rev obj.id hid
+
+/-! ## non-vacuity -/
+example :
+    let r : R := ({} : R).userPut 1 7
+    r.get 1 = some { id := 1, data := 7, kind := .pending, sid := 1, other := 0, rev := 1 } ∧ r.tableRev = 1 ∧
+    ¬ (r.pending.isNone ∧ r.refreshedAt = r.tableRev) := by decide
+
 end Sdb
